@@ -6,7 +6,7 @@ PROP = "C14"
 TRUSTED = [
     "Coq 8.16.1 kernel (coqc), vm_compute for case evaluation; no native_compute",
     "hand-written model props/C14/coq/Model.v of util.Bitmask, seq.MIDsDistribution (+ JSON fields), frac.Info "
-    "(BuildDistribution/IsIntersecting), List.FilterInRange, getLIDsBorders + sort.Search, active/sealed LessOrEqual "
+    "(BuildDistribution/IsIntersecting), List.FilterInRange, getLIDsBorders + sort.Search, active/sealed LessOrEqual, MinBlockIDs "
     "(tied to /repo by the correspondence run, not verified code)",
     "Go harness harness/cmd/hC14 (generators, wire encoding of numbers as 63-bit literals, ground-truth sort of its own input)",
     "encoding/json (base64 of the bitmask, integer fields), time.Time arithmetic on millisecond instants: modelled as exact "
@@ -19,13 +19,15 @@ ASSUME = [
     "uint64 since repair 6d376ea (midToIndex maps a MID beyond int64 to the overflow bucket)",
     "the ID (MID 0, RID 0) is not stored when a query starts at 0 (getLIDsBorders excludes it; unreachable through ingest)",
     "IDs of a fraction are listed in descending order by its index (checked on every real fraction: tbl_ok)",
-    "search merge / limit / ordering across fractions are other properties (C16/C19): the store-level comparison is a test",
+    "the chunked search's early stop by time borders (List.Sort + calcEnsuredIDsCount, FractionsPerIteration < number of "
+    "fractions) is NOT modelled here (C05 owns the model): class chunked-nested is a store-level test with the spec "
+    "'same top-L as all documents in range'; merge details are C16/C19",
 ]
 RULE = ("exhaustive: util.Bitmask all subsets x all intervals (small sizes), MIDsDistribution window/bucket grid x all "
         "single/pair additions x all query intervals, getLIDsBorders all sub-lists of a small ID universe x all (from,to); "
         "random: frac.Info with documents spread <10min .. >24h before creation (+-1 ms around the 10 min / 24 h thresholds, far "
         "past / future), real fractions active / sealed / restored from index header and .frac-cache, multi-block sealed "
-        "fractions; query ends on/next to document times, bucket borders, fraction borders, and >= 2^63 (2^63, MaxUint64); fetch requests that also name absent IDs with MID >= 2^63; permanent regression class info-regression-to>=2^63. non-trivial = the occupancy map "
+        "fractions; query ends on/next to document times, bucket borders, fraction borders, and >= 2^63 (2^63, MaxUint64); fetch requests that also name absent IDs with MID >= 2^63; permanent regression class info-regression-to>=2^63; chunked-nested: 3-5 real fractions with nested/overlapping ranges (wide fraction with old and new documents over narrow ones), FractionsPerIteration 1/2, limits 1..6, both orders. non-trivial = the occupancy map "
         "(not the borders) prunes a query, or the LID borders narrow a non-empty scan on both sides; distinct by input")
 
 
